@@ -252,7 +252,7 @@ func (w *World) engine(depth, loops int) *Engine {
 			depth = 8
 		}
 	}
-	return &Engine{uniqueImpl: w.uniqueImpl, globalInit: w.globalInits(),prog: w.prog, fset: w.fset, modPrefix: modPath, maxDepth: depth, loopBound: loops, maxPaths: 20000, funcByName: w.funcs, opaque: map[string]bool{}, hof: map[string]int{}, hofMethod: map[string]string{}}
+	return &Engine{uniqueImpl: w.uniqueImpl, globalInit: w.globalInits(), prog: w.prog, fset: w.fset, modPrefix: modPath, maxDepth: depth, loopBound: loops, maxPaths: 20000, funcByName: w.funcs, opaque: map[string]bool{}, hof: map[string]int{}, hofMethod: map[string]string{}}
 }
 
 func (w *World) pos(p token.Pos) string {
@@ -325,7 +325,6 @@ func (w *World) fileOf(p *packages.Package, pos token.Pos) *ast.File {
 	}
 	return nil
 }
-
 
 var uniqueImplCache = map[*World]map[*types.Func]*ssa.Function{}
 
